@@ -260,7 +260,10 @@ def user_punch(rng, num=None, nvals=None, strings=True):
              "123456789", "SI(\"Calcite\")", "ALK", "CHARGE_BALANCE"]
     for i in range(n):
         if strings and rng.random() < 0.25:
-            lines.append(" %d PUNCH \"s%d\"" % (10 * (i + 1), rng.randint(0, 99)))
+            word = "s%d" % rng.randint(0, 99)
+            if rng.random() < 0.5:
+                word = (word + "_abcdefghijklmnopqrstuvwxyz0123456789")[:rng.choice([5, 11, 12, 13, 16, 19, 20, 21, 30])]      # around the 12- and 20-character field widths
+            lines.append(" %d PUNCH \"%s\"" % (10 * (i + 1), word))
         else:
             lines.append(" %d PUNCH %s" % (10 * (i + 1), rng.choice(exprs)))
     lines.append(" -end")
